@@ -259,10 +259,24 @@ impl FileMessageReader {
         Ok(())
     }
 
+    /// Fill `buf` from the file; one `read` may return fewer bytes than asked for
+    /// (tokio reads at most 2 MiB per call), only 0 means the end of the file.
+    async fn read_full(file: &mut tokio::fs::File, buf: &mut [u8]) -> anyhow::Result<usize> {
+        let mut filled = 0;
+        while filled < buf.len() {
+            let n = file.read(&mut buf[filled..]).await?;
+            if n == 0 {
+                break;
+            }
+            filled += n;
+        }
+        Ok(filled)
+    }
+
     pub async fn read_next(&mut self) -> anyhow::Result<Vec<u8>> {
         let len = self.read_len().await?;
         let mut data_buf = vec![0u8; len as usize];
-        let data_len = self.file.read(&mut data_buf).await?;
+        let data_len = Self::read_full(&mut self.file, &mut data_buf).await?;
         if data_len < data_buf.len() {
             return Err(anyhow::anyhow!("read data not enough"));
         }
@@ -275,7 +289,7 @@ impl FileMessageReader {
         let len = position.1 as u64;
         let mut data_buf = vec![0u8; len as usize];
         self.file.seek(SeekFrom::Start(position.0)).await?;
-        let data_len = self.file.read(&mut data_buf).await?;
+        let data_len = Self::read_full(&mut self.file, &mut data_buf).await?;
         if data_len < data_buf.len() {
             return Err(anyhow::anyhow!("read data not enough"));
         }
